@@ -18,7 +18,7 @@ void snap () {
   foreach (string k in sort_array (keys (obs), 1)) {
     o = obs[k];
     if (!o) continue;
-    t += " " + k + "=" + us (getuid (o)) + "/" + us (geteuid (o));
+    t += " " + k + "=" + us (getuid (o)) + "/" + us (geteuid (o)) + (virtualp (o) ? "*" : "");
   }
   VL (t);
 }
